@@ -36,8 +36,9 @@ def parse_amount(amount_str, decimal_separator='.'):
 
     if decimal_separator == ',':
         # European format: 1.234,56 or 1 234,56
-        # Remove thousand separators (period or space)
-        amount_str = amount_str.replace('.', '').replace(' ', '')
+        # Remove thousand separators (period or space; exports usually write the space as a
+        # no-break space U+00A0 or a narrow no-break space U+202F)
+        amount_str = amount_str.replace('.', '').replace(' ', '').replace('\u00a0', '').replace('\u202f', '')
         # Convert decimal comma to period for float()
         amount_str = amount_str.replace(',', '.')
     else:
